@@ -297,7 +297,8 @@ static void ut__loop0(struct io_epoll_context* self, int64_t now) {
 #define OS_IN_STEP (S.currentDueTime_.has ==> (G.os_armed && G.os_due == S.currentDueTime_.val))
 
 void CTX_update_timers(struct io_epoll_context* self)
-__CPROVER_requires(self == &S && UT_INV && OS_IN_STEP && (S.currentDueTime_.has ==> (S.currentDueTime_.val > -VF_TIME_BOUND && S.currentDueTime_.val < VF_TIME_BOUND)) && G.now > -VF_TIME_BOUND && G.now < VF_TIME_BOUND)
+__CPROVER_requires(S.timersAreDirty_) /*P*/ /* update_timers is called because the timers are dirty (run_impl); a failed attempt leaves them dirty for the next round */
+__CPROVER_requires(self == &S && UT_INV && OS_IN_STEP && (S.currentDueTime_.has ==> (S.currentDueTime_.val > -VF_TIME_BOUND && S.currentDueTime_.val < VF_TIME_BOUND)) && G.now > 0 && G.now < VF_TIME_BOUND)
 __CPROVER_assigns(G.top, G.in_heap, T1.dueTime_, S.currentDueTime_, S.timersAreDirty_, G.os_armed, G.os_due, G.submits)
 __CPROVER_ensures(G.top == NULL || TOP_DUE > G.now) /* every timer that is due has been reaped */
 __CPROVER_ensures(OS_IN_STEP) /* the recorded due time is what the OS timer is armed for */
@@ -351,7 +352,7 @@ __CPROVER_ensures(G.dead && OP_UNTOUCHED) /* the I/O thread may already have run
 /*@BODY start_remote*/
 
 void TM_start(struct timer_op* self)
-__CPROVER_requires(self == &OP && G.role == ROLE_IO && FRESH && G.remote_may_run == !G.on_io_thread)
+__CPROVER_requires(self == &OP && G.role == ROLE_IO && FRESH && IFF(G.remote_may_run, !G.on_io_thread))
 __CPROVER_assigns(OP, G, S.timersAreDirty_, T1.dueTime_)
 __CPROVER_ensures(__CPROVER_old(G.on_io_thread) ==> (G.sched_remote == (CANCEL_WON ? 1 : 0) && (G.inserts == 1 || G.sched_local == 1))) /* on the I/O thread: start_local */
 __CPROVER_ensures(!__CPROVER_old(G.on_io_thread) ==> (G.sched_remote == 1 && G.sched_fn == &TM_on_schedule_complete && G.inserts == 0 && G.polls == 0)) /* elsewhere: through the remote queue */
@@ -389,7 +390,8 @@ __CPROVER_ensures(G.dead && OP_UNTOUCHED)
 
 /* remove_timer_from_queue_and_complete_with_done: continuation scheduled by a winning remote cancellation.  C07-4: removes the
  * timer from the heap iff it has not elapsed (has not been popped), then done */
-#define IN_HEAP_IFF_NOT_ELAPSED (G.in_heap == !ELAPSED(OP.state_))
+#define IFF(a, b) (((a) && (b)) || (!(a) && !(b)))
+#define IN_HEAP_IFF_NOT_ELAPSED IFF(G.in_heap, !ELAPSED(OP.state_))
 void TM_remove_timer_from_queue_and_complete_with_done(struct operation_base* op)
 __CPROVER_requires(op == &OP.base && G.on_io_thread && G.role == ROLE_IO && VF_CFG_stop_possible && G.cancellable && G.stop_requested && G.completed == 0 && G.done == 0 && !G.dead \
                    && OP.base.enqueued_ == 0 && G.cb_state == CB_CONSTRUCTED && STATE_OK && CANCEL_WON && IN_HEAP_IFF_NOT_ELAPSED && HEAP_OK && G.removes == 0 && OP.context_ == &S)
@@ -425,12 +427,16 @@ __CPROVER_assigns(OP.state_, OP.base, G.c_old, G.cancel_adds, G.e_old, G.elapsed
 __CPROVER_ensures(G.cancel_adds == 1 && STATE_OK)
 __CPROVER_ensures(CANCEL_WON ==> (G.sched_remote == 1 && G.sched_item == &OP.base && G.sched_fn == &TM_remove_timer_from_queue_and_complete_with_done)) /* C07-4: the canceller schedules the completion iff it did not see the elapsed flag */
 __CPROVER_ensures(!CANCEL_WON ==> (G.sched_remote == 0 && OP.base.execute_ == __CPROVER_old(OP.base.execute_))) /* ... otherwise it leaves the operation to the timer side */
-__CPROVER_ensures(IN_HEAP_IFF_NOT_ELAPSED)
+__CPROVER_ensures(IN_HEAP_IFF_NOT_ELAPSED && !G.dead)
 /*@BODY request_stop_remote*/
 
 /* request_stop: local or remote by thread identity */
 void TM_request_stop(struct timer_op* self)
-__CPROVER_requires(self == &OP && G.role == ROLE_CANCEL && STARTED && G.sched_local == 0 && !G.remote_may_run)
+__CPROVER_requires(self == &OP && G.role == ROLE_CANCEL && G.sched_local == 0 && !G.remote_may_run)
+__CPROVER_requires(VF_CFG_stop_possible && G.cancellable && OP.canBeCancelled_ && G.cb_state == CB_CONSTRUCTED && G.stop_requested)
+__CPROVER_requires(G.completed == 0 && !G.dead && STATE_OK && IN_HEAP_IFF_NOT_ELAPSED)
+__CPROVER_requires(HEAP_OK && OP.context_ == &S && G.cancel_adds == 0 && G.sched_remote == 0 && G.removes == 0)
+__CPROVER_requires((G.in_heap ? (OP.base.enqueued_ == 0 && G.sched_local == 0) : (OP.base.enqueued_ == 1 && G.due_reached)) && OP.base.execute_ == &TM_maybe_complete_with_value)
 __CPROVER_assigns(OP.state_, OP.base, G.c_old, G.cancel_adds, G.e_old, G.elapsed_adds, G.in_heap, G.due_reached, G.top, G.removes, G.cb_state, G.sched_local, G.sched_remote, G.sched_item, G.sched_fn, G.dead, G.snap, S.timersAreDirty_, T1.dueTime_, G.stop_requested)
 __CPROVER_ensures(G.on_io_thread ==> (G.cancel_adds == 0 && G.cb_state == CB_DESTRUCTED && OP.base.execute_ == &TM_complete_with_done && OP.base.enqueued_ == 1 && G.sched_remote == 0 \
                    && (__CPROVER_old(G.in_heap) ? (G.removes == 1 && !G.in_heap && G.sched_local == 1 && G.sched_fn == &TM_complete_with_done) : (G.removes == 0 && G.sched_local == 0))))
@@ -443,7 +449,7 @@ __CPROVER_ensures(!G.dead && G.completed == 0)
 static void h_heap(void) {
   OP.dueTime_ = VF_nondet_i64(); T1.dueTime_ = VF_nondet_i64();
   __CPROVER_assume(OP.dueTime_ > -VF_TIME_BOUND && OP.dueTime_ < VF_TIME_BOUND && T1.dueTime_ > -VF_TIME_BOUND && T1.dueTime_ < VF_TIME_BOUND);
-  G.now = VF_nondet_i64(); __CPROVER_assume(G.now > -VF_TIME_BOUND && G.now < VF_TIME_BOUND);
+  G.now = VF_nondet_i64(); __CPROVER_assume(G.now > 0 && G.now < VF_TIME_BOUND);   /* CLOCK_MONOTONIC: time since boot, never the zero time_point */
   int k = VF_nondet_int();
   G.top = k == 0 ? NULL : k == 1 ? &T1 : (G.in_heap ? &OP : &T1);
   __CPROVER_assume(HEAP_OK);
@@ -474,7 +480,7 @@ static void h_started(void) {
 void h_schedule_at_impl(void) { h_fresh(); CTX_schedule_at_impl(&S, &OP); VF_CANARY("after schedule_at_impl"); if (G.top == &OP) { VF_CANARY("a timer can become the earliest"); } else { VF_CANARY("a timer can be inserted behind others"); } }
 void h_remove_timer(void) { h_fresh(); G.in_heap = 1; h_heap(); CTX_remove_timer(&S, &OP); VF_CANARY("after remove_timer"); }
 void h_update_timers(void) {
-  h_fresh(); G.in_heap = VF_nondet_bool(); h_heap();
+  h_fresh(); G.in_heap = VF_nondet_bool(); h_heap(); S.timersAreDirty_ = 1;
   if (S.currentDueTime_.has) { G.os_armed = 1; G.os_due = S.currentDueTime_.val; }
   __CPROVER_assume(S.currentDueTime_.val > -VF_TIME_BOUND && S.currentDueTime_.val < VF_TIME_BOUND);
   CTX_update_timers(&S);
